@@ -43,6 +43,14 @@ struct config {
 	std::set<std::pair<std::string, long> > saves;       // everything this key material ever issued
 	std::set<std::string> ciphers;
 	std::map<size_t, size_t> cipher_len;
+	// how this key material was configured, so that a sibling differing in one key bit can be built
+	int kind; std::string algo, algo2, key1, key2;
+	std::unique_ptr<sess::encryptor_factory> make(std::string const &k1, std::string const &k2) const {
+		using cppcms::crypto::key;
+		if (kind == 0) return std::unique_ptr<sess::encryptor_factory>(new sess::impl::hmac_factory(algo, key(k1.data(), k1.size())));
+		if (kind == 1) return std::unique_ptr<sess::encryptor_factory>(new sess::impl::aes_factory(algo, key(k1.data(), k1.size()), algo2, key(k2.data(), k2.size())));
+		return std::unique_ptr<sess::encryptor_factory>(new sess::impl::aes_factory(algo, key(k1.data(), k1.size())));
+	}
 };
 static std::string rkey(rng &r, size_t n) { return r.bytes(n); }
 static std::vector<std::unique_ptr<config> > make_configs(rng &r)
@@ -53,7 +61,7 @@ static std::vector<std::unique_ptr<config> > make_configs(rng &r)
 		std::unique_ptr<config> c(new config()); size_t kl = (size_t[]){ 16, 20, 64, 129 }[r.below(4)];
 		std::string k = rkey(r, kl);
 		c->name = std::string("hmac-") + hm[i] + "/key" + std::to_string(kl); c->encrypting = false;
-		c->f.reset(new sess::impl::hmac_factory(hm[i], cppcms::crypto::key(k.data(), k.size())));
+		c->kind = 0; c->algo = hm[i]; c->key1 = k; c->f = c->make(k, "");
 		v.push_back(std::move(c));
 	}
 	static char const *ae[] = { "aes", "aes128", "aes192", "aes256", "aes-256" };
@@ -63,14 +71,14 @@ static std::vector<std::unique_ptr<config> > make_configs(rng &r)
 		std::unique_ptr<config> c(new config()); int h = r.below(6);
 		std::string ck = rkey(r, aks[i]), hk = rkey(r, 16 + r.below(50));
 		c->name = std::string(ae[i]) + "+hmac-" + hm[h] + "/split"; c->encrypting = true;
-		c->f.reset(new sess::impl::aes_factory(ae[i], cppcms::crypto::key(ck.data(), ck.size()), hm[h], cppcms::crypto::key(hk.data(), hk.size())));
+		c->kind = 1; c->algo = ae[i]; c->algo2 = hm[h]; c->key1 = ck; c->key2 = hk; c->f = c->make(ck, hk);
 		v.push_back(std::move(c));
 		// combined key: exact size (cbc key + sha1 digest) or derived from a longer/shorter one
 		std::unique_ptr<config> d(new config());
-		size_t kl = r.chance(1, 2) ? aks[i] + 20 : aks[i] + r.below(40);
+		size_t kl; switch (r.below(6)) { case 0: case 1: kl = aks[i] + 20; break; case 2: kl = aks[i] + r.below(40); break; case 3: kl = aks[i] + 21 + r.below(12); break; case 4: kl = 64; break; default: kl = 60 + r.below(70); }
 		std::string k = rkey(r, kl);
 		d->name = std::string(ae[i]) + "/combined-key" + std::to_string(kl); d->encrypting = true;
-		d->f.reset(new sess::impl::aes_factory(ae[i], cppcms::crypto::key(k.data(), k.size())));
+		d->kind = 2; d->algo = ae[i]; d->key1 = k; d->f = d->make(k, "");
 		v.push_back(std::move(d));
 	}
 	return v;
@@ -182,6 +190,17 @@ static void run_config(rng &r, config &c, std::vector<std::unique_ptr<config> > 
 		}
 		// transplant: genuine cookies of other key material / algorithms
 		for (int q = 0; q < 3; q++) { config &o = *all[r.below((uint32_t)all.size())]; if (&o == &c) continue; std::string oc = o.f->get()->encrypt(pack(t >= now ? t : now + 5, payload)); judge_reject(c, oc, "other-key-or-algorithm", desc + " made by " + o.name); }
+		// ... and of key material that differs from the configured one in a single bit (every byte of the key must matter)
+		for (int q = 0; q < 2; q++) {
+			std::string k1 = c.key1, k2 = c.key2;
+			std::string &k = (c.kind == 1 && r.chance(1, 2)) ? k2 : k1;
+			size_t pos; switch (r.below(4)) { case 0: pos = 0; break; case 1: pos = k.size() - 1; break; default: pos = r.below((uint32_t)k.size()); }
+			k[pos] ^= (char)(1 << r.below(8));
+			std::unique_ptr<sess::encryptor_factory> sib = c.make(k1, k2);
+			std::string oc = sib->get()->encrypt(pack(t >= now ? t : now + 5, payload));
+			judge_reject(c, oc, "near-key", desc + " made under the same configuration with bit flipped in byte " + std::to_string(pos) + " of the " + std::to_string(k.size()) + "-byte " + (&k == &k2 ? "hmac key" : "key"));
+			O().seen("near_key_positions", mix(mix(c.kind, k.size()), pos));
+		}
 		recent.push_back(cipher); if (recent.size() > 3) recent.erase(recent.begin());
 		// arbitrary strings as the whole cookie value
 		for (int q = 0; q < 4; q++) {
